@@ -118,11 +118,50 @@ Definition remaining (st : sc) (segs : list bytes) (serr : option N) : bytes :=
 Definition measure (st : sc) (segs : list bytes) (serr : option N) : nat :=
   (length (pend st) + match serr with None => S (2 * length (concat segs)) | Some _ => 0 end)%nat.
 
-Lemma drain_Strip dt : forall fuel st segs serr out,
-  inv st -> runs_ok_from 0 segs = true -> (serr = None \/ serr = Some 0) ->
+(* the scanner's output on a stream that ends with the transport status fin (0 = EOF): tokens are
+   those of [Strip]; with fin <> 0 the output may stop after any token (how far the scanner got
+   before it read the error depends on the segmentation) and the status is the transport's *)
+Inductive StripF (fin : N) : bytes -> list bytes -> (list bytes * res unit) -> Prop :=
+| F_tok d out adv tok r :
+    split d true = Ok (Tok adv tok) -> StripF fin (skipn (Z.to_nat adv) d) (push tok out) r -> StripF fin d out r
+| F_more d out : split d true = Ok More -> StripF fin d out (out, if fin =? 0 then Ok tt else Err fin)
+| F_err d out e : split d true = Err e -> StripF fin d out (out, Err (if fin =? 0 then e else fin))
+| F_stop d out adv tok : split d true = Ok (Tok adv tok) -> fin <> 0 -> StripF fin d out (out, Err fin).
+
+Lemma StripF_0 d out r : StripF 0 d out r -> Strip d out r.
+Proof.
+  induction 1 as [d out adv tok r H S IH|d out H|d out e H|d out adv tok H Hf].
+  - eapply St_tok; eauto.
+  - now apply St_more.
+  - now apply St_err.
+  - congruence.
+Qed.
+
+Lemma Strip_extends d out p : Strip d out p -> exists more, fst p = more ++ out.
+Proof.
+  induction 1 as [d out H|d out e H|d out adv tok r H S IH]; try (now exists []).
+  destruct IH as [more ->]. unfold push. destruct tok; [now exists more|].
+  exists (more ++ [n :: tok]). now rewrite <- app_assoc.
+Qed.
+
+(* with a read error at the end: the status is that error and the output is a prefix of the
+   output for the same bytes ending in EOF *)
+Lemma StripF_prefix fin d out p : fin <> 0 -> StripF fin d out p ->
+  snd p = Err fin /\ forall q, Strip d out q -> exists more, fst q = more ++ fst p.
+Proof.
+  intros Hf. induction 1 as [d out adv tok r H S IH|d out H|d out e H|d out adv tok H _].
+  - destruct IH as [A B]. split; [exact A|]. intros q Q. inversion Q; subst; try congruence.
+    rewrite H in H0. inversion H0; subst. now apply B.
+  - apply N.eqb_neq in Hf. rewrite Hf. split; [reflexivity|]. intros q Q. apply (Strip_extends _ _ _ Q).
+  - apply N.eqb_neq in Hf. rewrite Hf. split; [reflexivity|]. intros q Q. apply (Strip_extends _ _ _ Q).
+  - split; [reflexivity|]. intros q Q. apply (Strip_extends _ _ _ Q).
+Qed.
+
+Lemma drain_StripF fin dt : forall fuel st segs serr out,
+  inv st -> runs_ok_from 0 segs = true -> (serr = None \/ serr = Some fin) ->
   lenN (remaining st segs serr) < tok_limit ->
   (measure st segs serr < fuel)%nat ->
-  Strip (remaining st segs serr) out (drain fuel st segs 0 dt serr out).
+  StripF fin (remaining st segs serr) out (drain fuel st segs fin dt serr out).
 Proof.
   induction fuel as [|fuel IH]; intros st segs serr out [I1 I2] Hne Hserr Hlim Hm; [lia|].
   cbn [drain]. destruct Hserr as [-> | ->].
@@ -157,11 +196,11 @@ Proof.
         { unfold ns. destruct (cap st1 * 2 =? 0) eqn:Z0; [apply N.eqb_eq in Z0; unfold start_buf_size; lia|].
           apply N.eqb_neq in Z0. lia. }
         cbn [pend plen start cap].
-        destruct (read_more (N.min ns max_token - (0 + plen st1)) 0 segs 0 dt) as [[got segs'] serr'] eqn:R.
+        destruct (read_more (N.min ns max_token - (0 + plen st1)) 0 segs fin dt) as [[got segs'] serr'] eqn:R.
         apply read_more_spec in R; [|lia|auto].
         destruct R as [(Hc0 & -> & -> & ->) | [(Hg & -> & Hcat & Hgl & Hne') | (Hg & -> & -> & Hcat & Hgl)]].
         -- rewrite Hc0 in *. rewrite P1, L1. rewrite !app_nil_r.
-           specialize (IH {| pend := pend st; plen := plen st + lenN []; start := 0; cap := N.min ns max_token |} [] (Some 0) out).
+           specialize (IH {| pend := pend st; plen := plen st + lenN []; start := 0; cap := N.min ns max_token |} [] (Some fin) out).
            unfold remaining, measure in IH. cbn [pend] in IH. cbn [concat] in *. rewrite app_nil_r in *. apply IH; auto.
            ++ split; cbn [pend plen start cap]; change (lenN []) with 0; lia.
            ++ unfold measure in Hm. cbn [concat length] in Hm. lia.
@@ -172,17 +211,17 @@ Proof.
            ++ rewrite app_length. rewrite <- Hcat, app_length in Hm.
               assert (length got <> 0)%nat by (destruct got; [congruence|cbn; lia]). lia.
         -- rewrite P1, L1.
-           specialize (IH {| pend := pend st ++ got; plen := plen st + lenN got; start := 0; cap := N.min ns max_token |} [] (Some 0) out).
+           specialize (IH {| pend := pend st ++ got; plen := plen st + lenN got; start := 0; cap := N.min ns max_token |} [] (Some fin) out).
            unfold remaining, measure in IH. cbn [pend] in IH. rewrite app_nil_r in IH. rewrite <- Hcat. apply IH; auto.
            ++ split; cbn [pend plen start cap]; [rewrite lenN_app; lia|lia].
            ++ rewrite <- Hcat in Hlim. exact Hlim.
            ++ rewrite app_length. rewrite <- Hcat in Hm. lia.
       * apply N.eqb_neq in Efull. cbn [andb].
-        destruct (read_more (cap st1 - (start st1 + plen st1)) 0 segs 0 dt) as [[got segs'] serr'] eqn:R.
+        destruct (read_more (cap st1 - (start st1 + plen st1)) 0 segs fin dt) as [[got segs'] serr'] eqn:R.
         apply read_more_spec in R; [|lia|auto].
         destruct R as [(Hc0 & -> & -> & ->) | [(Hg & -> & Hcat & Hgl & Hne') | (Hg & -> & -> & Hcat & Hgl)]].
         -- rewrite Hc0 in *. rewrite P1, L1. rewrite !app_nil_r.
-           specialize (IH {| pend := pend st; plen := plen st + lenN []; start := start st1; cap := cap st1 |} [] (Some 0) out).
+           specialize (IH {| pend := pend st; plen := plen st + lenN []; start := start st1; cap := cap st1 |} [] (Some fin) out).
            unfold remaining, measure in IH. cbn [pend] in IH. cbn [concat] in *. rewrite app_nil_r in *. apply IH; auto.
            ++ split; cbn [pend plen start cap]; change (lenN []) with 0; lia.
            ++ unfold measure in Hm. cbn [concat length] in Hm. lia.
@@ -193,7 +232,7 @@ Proof.
            ++ rewrite app_length. rewrite <- Hcat, app_length in Hm.
               assert (length got <> 0)%nat by (destruct got; [congruence|cbn; lia]). lia.
         -- rewrite P1, L1.
-           specialize (IH {| pend := pend st ++ got; plen := plen st + lenN got; start := start st1; cap := cap st1 |} [] (Some 0) out).
+           specialize (IH {| pend := pend st ++ got; plen := plen st + lenN got; start := start st1; cap := cap st1 |} [] (Some fin) out).
            unfold remaining, measure in IH. cbn [pend] in IH. rewrite app_nil_r in IH. rewrite <- Hcat. apply IH; auto.
            ++ split; cbn [pend plen start cap]; [rewrite lenN_app; lia|lia].
            ++ rewrite <- Hcat in Hlim. exact Hlim.
@@ -203,40 +242,49 @@ Proof.
       assert (Hpl : Z.of_N (plen st) = Z.of_nat (length (pend st))) by (rewrite I1, lenN_spec; lia).
       destruct (adv <? 0)%Z eqn:A; [lia|]. destruct (Z.of_N (plen st) <? adv)%Z eqn:B; [lia|].
       cbn [orb]. destruct (adv =? 0)%Z eqn:C; [lia|].
-      eapply St_tok; [apply split_stable; exact E|].
+      eapply F_tok; [apply split_stable; exact E|].
       replace (match tok with [] | _ => _ end) with
         (drain fuel {| pend := skipn (N.to_nat (Z.to_N adv)) (pend st); plen := plen st - Z.to_N adv;
-                       start := start st + Z.to_N adv; cap := cap st |} segs 0 dt None (push tok out))
+                       start := start st + Z.to_N adv; cap := cap st |} segs fin dt None (push tok out))
         by (destruct tok; reflexivity).
       rewrite skipn_app. replace (Z.to_nat adv - length (pend st))%nat with 0%nat by lia. cbn [skipn].
       replace (Z.to_nat adv) with (N.to_nat (Z.to_N adv)) by lia.
-      match goal with |- Strip _ _ (drain fuel ?s _ _ _ _ _) => specialize (IH s segs None (push tok out)) end.
+      match goal with |- StripF _ _ _ (drain fuel ?s _ _ _ _ _) => specialize (IH s segs None (push tok out)) end.
       unfold remaining, measure in IH. cbn [pend] in IH. apply IH; auto.
       * split; cbn [pend plen start cap]; [rewrite lenN_spec, skipn_length; lia|lia].
       * rewrite lenN_app in *. rewrite lenN_spec in *. rewrite skipn_length. lia.
       * rewrite skipn_length. lia.
-  - (* at EOF: the buffer is the whole remaining input *)
+  - (* the scanner has seen the end of the stream: the buffer is the whole remaining input *)
     cbn [orb]. rewrite orb_true_r. unfold remaining in *. rewrite app_nil_r in *. unfold measure in Hm.
     destruct (split (pend st) true) as [[|adv tok]|e|s] eqn:E.
-    + cbn. now apply St_more.
+    + now apply F_more.
     + destruct (split_tok_facts _ _ _ _ E) as [Ha _]. rewrite lenZ_spec in Ha.
       assert (Hpl : Z.of_N (plen st) = Z.of_nat (length (pend st))) by (rewrite I1, lenN_spec; lia).
       destruct (adv <? 0)%Z eqn:A; [lia|]. destruct (Z.of_N (plen st) <? adv)%Z eqn:B; [lia|].
       cbn [orb]. destruct (adv =? 0)%Z eqn:C; [lia|].
-      eapply St_tok; [exact E|].
-      replace (match tok with [] => _ | _ :: _ => _ end) with
-        (drain fuel {| pend := skipn (N.to_nat (Z.to_N adv)) (pend st); plen := plen st - Z.to_N adv;
-                       start := start st + Z.to_N adv; cap := cap st |} segs 0 dt (Some 0) (push tok out))
-        by (destruct tok; reflexivity).
-      replace (Z.to_nat adv) with (N.to_nat (Z.to_N adv)) by lia.
-      match goal with |- Strip _ _ (drain fuel ?s _ _ _ _ _) => specialize (IH s segs (Some 0) (push tok out)) end.
-      unfold remaining, measure in IH. cbn [pend] in IH. rewrite app_nil_r in IH. apply IH; auto.
-      * split; cbn [pend plen start cap]; [rewrite lenN_spec, skipn_length; lia|lia].
-      * rewrite lenN_spec in *. rewrite skipn_length. lia.
-      * rewrite skipn_length. lia.
-    + cbn. now apply St_err.
+      assert (Hgo : StripF fin (pend st) out
+                (drain fuel {| pend := skipn (N.to_nat (Z.to_N adv)) (pend st); plen := plen st - Z.to_N adv;
+                               start := start st + Z.to_N adv; cap := cap st |} segs fin dt (Some fin) (push tok out))).
+      { eapply F_tok; [exact E|].
+        replace (Z.to_nat adv) with (N.to_nat (Z.to_N adv)) by lia.
+        match goal with |- StripF _ _ _ (drain fuel ?s _ _ _ _ _) => specialize (IH s segs (Some fin) (push tok out)) end.
+        unfold remaining, measure in IH. cbn [pend] in IH. rewrite app_nil_r in IH. apply IH; auto.
+        * split; cbn [pend plen start cap]; [rewrite lenN_spec, skipn_length; lia|lia].
+        * rewrite lenN_spec in *. rewrite skipn_length. lia.
+        * rewrite skipn_length. lia. }
+      destruct tok as [|c t]; [exact Hgo|].
+      destruct (fin =? 0) eqn:E0; [exact Hgo|].
+      apply N.eqb_neq in E0. eapply F_stop; eauto.
+    + unfold set_err. now apply F_err.
     + exfalso. exact (split_no_panic _ _ _ E).
 Qed.
+
+Lemma drain_Strip dt fuel st segs serr out :
+  inv st -> runs_ok_from 0 segs = true -> (serr = None \/ serr = Some 0) ->
+  lenN (remaining st segs serr) < tok_limit ->
+  (measure st segs serr < fuel)%nat ->
+  Strip (remaining st segs serr) out (drain fuel st segs 0 dt serr out).
+Proof. intros. now apply StripF_0, drain_StripF. Qed.
 
 (* [core] for every segmentation into non-empty reads the reader computes strip of the whole input *)
 Lemma reader_dt_strip segs dt :
@@ -268,4 +316,25 @@ Lemma reader_segmentation segs1 segs2 :
   lenN (concat segs1) < tok_limit -> reader segs1 0 = reader segs2 0.
 Proof.
   intros H1 H2 Hc Hl. rewrite (reader_strip segs1 H1 Hl). rewrite Hc in Hl. rewrite (reader_strip segs2 H2 Hl). now rewrite Hc.
+Qed.
+
+(* [core] a stream that ends in a read error (fin <> 0), for every segmentation: the reader ends
+   with that very error, and what it delivered before is a prefix of what it delivers for the
+   same bytes followed by EOF.  How long that prefix is depends on the segmentation: a token that
+   is complete only in the scanner's last buffer is not delivered (commentReader.Read tests
+   s.Err() before it hands the token over). *)
+Lemma reader_dt_error segs fin dt :
+  fin <> 0 -> runs_ok segs -> lenN (concat segs) < tok_limit ->
+  snd (reader_dt segs fin dt) = Err fin /\
+  exists rest, fst (reader_dt segs fin dt) ++ rest = fst (strip (concat segs)).
+Proof.
+  intros Hf Hne Hlim. destruct (strip_Strip (concat segs)) as (o & r & HS & ->).
+  unfold reader_dt.
+  pose proof (drain_StripF fin dt (drain_fuel segs) sc0 segs None []) as D.
+  unfold remaining, measure in D. cbn [sc0 pend app] in D.
+  specialize (D ltac:(split; cbn; lia) Hne ltac:(now left) Hlim ltac:(unfold drain_fuel; cbn [length]; lia)).
+  destruct (drain _ sc0 segs fin dt None []) as [o' r'].
+  destruct (StripF_prefix fin _ _ _ Hf D) as [A B]. cbn [fst snd] in *.
+  split; [exact A|]. destruct (B _ HS) as [more Hm]. cbn [fst] in Hm. subst o.
+  exists (flat more). unfold flat. now rewrite rev_app_distr, concat_app.
 Qed.
